@@ -1,11 +1,10 @@
 //! in-daemon verification module (event_verif): child of the daemon's `event` module, sees its private items.
 //!
-//! `Neighbor` is a shadow of the export side of `PeerSession`: it performs, with the
-//! daemon's own functions (ExportMap, PendingTx, GroupedSink, process_nlri_change,
-//! TableManager::register_peer, collect_loc_rib_paths_limited), the steps that
-//! `on_established`, `handle_prefix_update` and `do_route_refresh` perform, in the same
-//! order, but lets the harness decide when queued changes are delivered and when the
-//! pending updates are flushed.
+//! `Neighbor` wraps a real `PeerSession` built with the daemon's cfg(test) constructor (no
+//! socket): the session's own `on_established`, `handle_prefix_update` and
+//! `do_route_refresh` run; the harness replaces only the select loop (it decides when a
+//! queued change is delivered) and the socket write (it decides when pending updates are
+//! flushed).
 use super::export::*;
 use super::*;
 
@@ -24,106 +23,84 @@ pub(crate) struct NeighborParams {
 
 pub(crate) struct Neighbor {
     pub(crate) p: NeighborParams,
-    ctx: PeerExportContext,
-    export_map: ExportMap,
-    pending: FnvHashMap<Family, crate::peer_tx::PendingTx>,
-    rx: Option<mpsc::UnboundedReceiver<ToPeerEvent>>,
+    /// a real PeerSession (cfg(test) constructor, no socket): its own on_established,
+    /// handle_prefix_update and do_route_refresh run; only the select loop that picks the
+    /// next event and the socket write are replaced by the harness's schedule
+    s: PeerSession,
     pub(crate) delivered: u64,
 }
 
 impl Neighbor {
-    /// `on_established`: export map, pending queues, registration + initial dump under the shard locks
-    pub(crate) fn establish(tables: &TableHandle, p: NeighborParams) -> Neighbor {
-        let ctx = PeerExportContext { role: p.role, local_asn: p.local_asn, local_addr: p.local_addr, link_addr: None, confederation_id: p.confederation_id };
-        let mut pending: FnvHashMap<Family, crate::peer_tx::PendingTx> = FnvHashMap::default();
+    /// needs a tokio runtime context (the session holds timer futures)
+    pub(crate) async fn establish(tables: &TableHandle, p: NeighborParams) -> Neighbor {
+        let fsm = crate::fsm::PeerFsm::new(1, p.local_asn, Vec::new(), 90, 0, FnvHashMap::default());
+        let context = Arc::new(std::sync::Mutex::new(PeerContext {
+            conn_arbiter: Arc::new(std::sync::Mutex::new(ConnArbiter::new(fsm))),
+            active_connect_cancel_tx: None,
+            active_connect_join_handle: None,
+            gr_state: crate::gr::GrState::new(),
+            gr_restart_timer: None,
+            llgr_family_timers: FnvHashMap::default(),
+            rtc_state: crate::rtc::RtcState::new(),
+            rtc_eor_timer: None,
+        }));
+        let mut s = PeerSession::new_for_test(p.remote_addr, context, tables.clone());
+        s.export_ctx = PeerExportContext { role: p.role, local_asn: p.local_asn, local_addr: p.local_addr, link_addr: None, confederation_id: p.confederation_id };
+        s.cluster_id = p.cluster_id;
         for f in &p.families {
-            pending.insert(*f, crate::peer_tx::PendingTx::new(p.effective_max > 1));
-        }
-        let mut export_map = ExportMap::new(p.families.iter().copied().filter(|_| p.effective_max > 1));
-        let export_policy = p.export_policy.clone().or_else(|| tables.export_policy.load_full());
-        let rpki = tables.rpki.read().unwrap();
-        let families = p.families.clone();
-        let rx = tables.register_peer(p.remote_addr, FnvHashSet::default(), |rtable| {
-            for f in &families {
-                let addpath_tx = pending.get(f).map(|x| x.addpath_tx()).unwrap_or(false);
-                let mut sink = GroupedSink::new(addpath_tx);
-                let walk_max = if p.effective_max > 1 { usize::MAX } else { 1 };
-                for change in rtable.collect_loc_rib_paths_limited(f, walk_max) {
-                    process_nlri_change(&change, p.effective_max, p.remote_addr, &mut export_map, &mut sink, &ctx, export_policy.as_deref(), p.cluster_id, Some(&rpki), None, None);
-                }
-                if let Some(pd) = pending.get_mut(f) {
-                    pd.buffer_messages(sink.into_messages(*f));
-                }
+            s.codec.set_family(*f, bgp::FamilyState { addpath_rx: false, addpath_tx: p.effective_max > 1 });
+            if p.effective_max > 1 {
+                s.effective_max.insert(*f, p.effective_max);
             }
-        });
-        drop(rpki);
-        for f in &p.families {
-            pending.get_mut(f).unwrap().buffer_messages(vec![bgp::Message::eor(*f)]);
         }
-        Neighbor { p, ctx, export_map, pending, rx: Some(rx), delivered: 0 }
+        s.state.export_policy.store(p.export_policy.clone());
+        s.state.remote_asn.store(65100, Ordering::Relaxed);
+        s.state.remote_id.store(0x0909_0909, Ordering::Relaxed);
+        s.state.remote_cap.store(Some(Arc::new(Vec::new())));
+        let local = SocketAddr::new(p.local_addr, 179);
+        let remote = SocketAddr::new(p.remote_addr, 40000);
+        s.on_established(local, remote).await;
+        Neighbor { p, s, delivered: 0 }
     }
 
-    /// number of change events waiting in the channel cannot be read without consuming; deliver up to `n`
-    pub(crate) fn deliver(&mut self, tables: &TableHandle, n: usize) -> usize {
+    /// the session's select loop takes up to `n` queued table events (same dispatch as run_select)
+    pub(crate) async fn deliver(&mut self, n: usize) -> usize {
         let mut done = 0;
         while done < n {
-            let Some(rx) = self.rx.as_mut() else { break };
-            let Ok(ev) = rx.try_recv() else { break };
+            let Some(rx) = self.s.peer_event_rx.as_mut() else { break };
+            let Some(ev) = rx.next().now_or_never() else { break };
             done += 1;
             match ev {
-                ToPeerEvent::NlriChange(update) => {
-                    let Some(pending) = self.pending.get_mut(&update.family) else { continue };
-                    let export_policy = self.p.export_policy.clone().or_else(|| tables.export_policy.load_full());
-                    let rpki = export_policy.as_deref().filter(|p| p.needs_rpki).map(|_| tables.rpki.read().unwrap());
-                    process_nlri_change(&update, self.p.effective_max, self.p.remote_addr, &mut self.export_map, pending, &self.ctx, export_policy.as_deref(), self.p.cluster_id, rpki.as_deref(), None, None);
+                Some(ToPeerEvent::NlriChange(update)) => {
+                    let is_rtc = update.family == Family::RTC;
+                    self.s.handle_prefix_update(update);
+                    if is_rtc {
+                        for family in self.s.rtc_vpn_refresh_families() {
+                            self.s.do_route_refresh(family).await;
+                        }
+                    }
                     self.delivered += 1;
                 }
-                ToPeerEvent::SoftResetOut => {
-                    let fams = self.p.families.clone();
-                    for f in fams {
-                        self.route_refresh(tables, f);
+                Some(ToPeerEvent::SoftResetOut) => {
+                    for family in self.s.pending.keys().cloned().collect::<Vec<_>>() {
+                        self.s.do_route_refresh(family).await;
                     }
                 }
-                ToPeerEvent::RouteRefreshFamilies(fams) => {
-                    for f in fams {
-                        self.route_refresh(tables, f);
+                Some(ToPeerEvent::RouteRefreshFamilies(families)) => {
+                    for family in families {
+                        self.s.do_route_refresh(family).await;
                     }
+                }
+                None => {
+                    self.s.peer_event_rx = None;
                 }
             }
         }
         done
     }
 
-    /// `do_route_refresh`
-    pub(crate) fn route_refresh(&mut self, tables: &TableHandle, family: Family) {
-        if !self.pending.contains_key(&family) {
-            return;
-        }
-        let export_policy = self.p.export_policy.clone().or_else(|| tables.export_policy.load_full());
-        let walk_max = if self.p.effective_max > 1 { usize::MAX } else { 1 };
-        let changes = tables.collect_loc_rib_paths_limited(family, walk_max);
-        let rpki = tables.rpki.read().unwrap();
-        for change in &changes {
-            let Some(pending) = self.pending.get_mut(&change.family) else { continue };
-            // (mirrors do_route_refresh, including its add-path re-advertisement step)
-            let sent_before = if self.p.effective_max > 1 {
-                let ids = self.export_map.sent_path_ids(change.family, change.dest_id);
-                for pid in &ids {
-                    self.export_map.mark_withdrawn(change.family, change.dest_id, *pid);
-                }
-                ids
-            } else {
-                Default::default()
-            };
-            process_nlri_change(change, self.p.effective_max, self.p.remote_addr, &mut self.export_map, pending, &self.ctx, export_policy.as_deref(), self.p.cluster_id, Some(&rpki), None, None);
-            if !sent_before.is_empty() {
-                let sent_now = self.export_map.sent_path_ids(change.family, change.dest_id);
-                for pid in sent_before.difference(&sent_now) {
-                    pending.unreach(change.dest_id, change.net.clone(), *pid);
-                }
-            }
-        }
-        self.pending.get_mut(&family).unwrap().schedule_eor();
+    pub(crate) async fn route_refresh(&mut self, family: Family) {
+        self.s.do_route_refresh(family).await;
     }
 
     /// the socket is writable: everything pending becomes messages
@@ -131,7 +108,7 @@ impl Neighbor {
         let mut out = Vec::new();
         let fams = self.p.families.clone();
         for f in fams {
-            if let Some(p) = self.pending.get_mut(&f) {
+            if let Some(p) = self.s.pending.get_mut(&f) {
                 out.extend(p.drain_messages(f));
             }
         }
@@ -139,12 +116,13 @@ impl Neighbor {
     }
 
     pub(crate) fn set_policy(&mut self, p: Option<Arc<table::PolicyAssignment>>) {
+        self.s.state.export_policy.store(p.clone());
         self.p.export_policy = p;
     }
 
     /// session ends: the daemon unregisters the peer from every shard
     pub(crate) fn close(&mut self, tables: &TableHandle) {
-        self.rx = None;
+        self.s.peer_event_rx = None;
         tables.unregister_peer(self.p.remote_addr, &[], &[]);
     }
 }
@@ -490,5 +468,52 @@ impl Conn {
             }
         }
         Ok(())
+    }
+}
+
+// ---------------------------------------------------------------------------
+// gRPC handler rig (C17): the daemon's GrpcService with its real AddPath / DeletePath /
+// ListPath handlers, called in-process (no transport)
+// ---------------------------------------------------------------------------
+
+pub(crate) struct ApiRig {
+    svc: GrpcService,
+    pub(crate) tables: TableHandle,
+}
+
+impl ApiRig {
+    pub(crate) fn new() -> Self {
+        let (tx, _rx) = mpsc::unbounded_channel();
+        let (bfd_tx, _bfd_rx) = mpsc::unbounded_channel();
+        let mut g = Global::new(tx, bfd_tx);
+        g.asn = 65000;
+        g.router_id = Ipv4Addr::new(1, 0, 0, 1);
+        let global: GlobalHandle = Arc::new(tokio::sync::RwLock::new(g));
+        let tables: TableHandle = Arc::new(TableManager::new(2));
+        let (active_conn_tx, _) = mpsc::unbounded_channel();
+        let svc = GrpcService::new(Arc::new(tokio::sync::Notify::new()), active_conn_tx, global, tables.clone());
+        ApiRig { svc, tables }
+    }
+
+    pub(crate) async fn add_path(&self, path: api::Path) -> Result<Vec<u8>, tonic::Status> {
+        let req = tonic::Request::new(api::AddPathRequest { table_type: api::TableType::Global as i32, vrf_id: String::new(), path: Some(path) });
+        self.svc.add_path(req).await.map(|r| r.into_inner().uuid)
+    }
+
+    pub(crate) async fn delete_path(&self, uuid: Vec<u8>) -> Result<(), tonic::Status> {
+        let req = tonic::Request::new(api::DeletePathRequest { uuid, ..Default::default() });
+        self.svc.delete_path(req).await.map(|_| ())
+    }
+
+    pub(crate) async fn list(&self, family: api::Family) -> Result<Vec<api::Destination>, tonic::Status> {
+        let req = tonic::Request::new(api::ListPathRequest { table_type: api::TableType::Global as i32, family: Some(family), ..Default::default() });
+        let mut stream = self.svc.list_path(req).await?.into_inner();
+        let mut out = Vec::new();
+        while let Some(r) = stream.next().await {
+            if let Some(d) = r?.destination {
+                out.push(d);
+            }
+        }
+        Ok(out)
     }
 }
